@@ -2,6 +2,7 @@ package querylog
 
 import (
 	"context"
+	"encoding/json"
 	"fmt"
 	"io"
 	"log/slog"
@@ -378,7 +379,8 @@ func (q *qLogFile) readProbeLine(position int64) (string, int64, int64, error) {
 }
 
 // readJSONValue reads a JSON string in form of '"key":"value"'.  prefix must
-// be of the form '"key":"' to generate less garbage.
+// be of the form '"key":"' to generate less garbage.  The value is unescaped,
+// if necessary, so that it is the same string that was encoded.
 func readJSONValue(s, prefix string) string {
 	i := strings.Index(s, prefix)
 	if i == -1 {
@@ -386,13 +388,37 @@ func readJSONValue(s, prefix string) string {
 	}
 
 	start := i + len(prefix)
-	i = strings.IndexByte(s[start:], '"')
-	if i == -1 {
+
+	// Find the closing quote, skipping the escaped characters.
+	end := -1
+	escaped := false
+	for j := start; j < len(s); j++ {
+		if s[j] == '\\' {
+			escaped = true
+			j++
+		} else if s[j] == '"' {
+			end = j
+
+			break
+		}
+	}
+
+	if end == -1 {
 		return ""
 	}
 
-	end := start + i
-	return s[start:end]
+	if !escaped {
+		return s[start:end]
+	}
+
+	// Include the quotes, since prefix ends with the opening one.
+	var val string
+	err := json.Unmarshal([]byte(s[start-1:end+1]), &val)
+	if err != nil {
+		return s[start:end]
+	}
+
+	return val
 }
 
 // readQLogTimestamp reads the timestamp field from the query log line.
